@@ -91,6 +91,12 @@ def gen_spec(rng):
             for b in ("border_left", "border_right", "border_top", "border_bottom"):
                 spec[k].pop(b, None)
             spec[k]["as_table"] = rng.random() < 0.55
+        if isinstance(spec.get(k), dict) and spec[k].get("as_table") and rng.random() < 0.2:
+            # several text lines with a bottom border given per line: the row that closes the table is still closed
+            # by the page / body setting
+            nl = rng.randint(2, 3)
+            spec[k]["text"] = [f"{'FN' if k == 'footnote' else 'SR'}{i}" for i in range(nl)]
+            spec[k]["border_bottom"] = [[rng.choice(["", "", "dashed", "single"])] for _ in range(nl)]
         if rng.random() < 0.06:
             # "no text" said with an empty list / empty string instead of leaving the component out: nothing is
             # rendered, so the table still has to be closed on its last data row
